@@ -277,7 +277,7 @@ def units(tier):
     return u
 
 
-BUDGET = {"quick": 200, "thorough": 1200}
+BUDGET = {"quick": 300, "thorough": 1200}
 UNIT_PATH_CAP = {"quick": 80, "thorough": 20000}
 BOUNDS = {
     "quick": "8 shapes x {constructed, decoded from spec bytes (optionally with an unknown field), loaded from a dict} x each of 11 observers (and any 2 observers "
